@@ -15,12 +15,24 @@ class Crash:
 _FN = None
 
 
-def _call(case):
+def _rearm_warnings():
+    """Free-running threads inside a case can leave the (thread-unsafe) warnings filters at "error" for the rest of the
+    worker's life; every case starts from "ignore everything" (the checks are run with -W ignore)."""
+    import warnings
+    warnings.resetwarnings()
+    warnings.simplefilter("ignore")
+
+
+def _call(case, _retry=True):
     try:
         from . import factory
+        _rearm_warnings()
         factory.new_case(case)
         return _FN(case)
-    except BaseException as e:  # harness bug, or an exception raised by the library in a call the check expected to succeed
+    except BaseException as e:
+        if isinstance(e, Warning) and _retry:
+            # a warning escalated to an exception: an artefact of corrupted filters, never a property of the library
+            return _call(case, _retry=False)  # harness bug, or an exception raised by the library in a call the check expected to succeed
         from . import REPO, VERIF
         # Walk the traceback: the exception is attributed to the library when the deepest frame that belongs to the
         # check's own code (/verif) *called into* pulsarbat, i.e. the library (or something it called) raised inside a
